@@ -11,6 +11,10 @@ def main(argv):
         out = common.record_fingerprints()
         print("recorded fingerprints for %d properties" % len(out))
         return 0
+    if len(argv) >= 2 and argv[1] == "baseline":
+        n = common.record_baseline_tables()
+        print("baseline tables: %s" % n)
+        return 0 if n else 1
     if len(argv) >= 3 and argv[1] == "replay":
         return common.replay_file(argv[2])
     if len(argv) < 2:
@@ -20,8 +24,22 @@ def main(argv):
     tier = argv[2] if len(argv) > 2 else os.environ.get("VERIF_TIER", "quick")
     if tier not in ("quick", "thorough"):
         tier = "quick"
-    mod = importlib.import_module(prop.lower())
-    return common.run_property(mod, tier)
+    try:
+        mod = importlib.import_module(prop.lower())
+        return common.run_property(mod, tier)
+    except Exception as e:
+        # the harness itself could not run against this tree (e.g. it introspects something a change removed): the correspondence
+        # is broken and no input was found; say so in the prescribed form instead of dying with a traceback
+        import traceback, json, time, hashlib
+        tb = traceback.format_exc()
+        sys.stdout.write(tb)
+        os.makedirs(os.path.join(common.VERIF, "findings"), exist_ok=True)
+        path = os.path.join(common.VERIF, "findings", "%s-harness-%s.json" % (prop, hashlib.sha1(tb.encode()).hexdigest()[:12]))
+        json.dump({"property": prop, "kind": "no-failing-input-found", "tier": tier,
+                   "broken_obligation": "correspondence harness could not run: %s: %s" % (type(e).__name__, e), "traceback": tb[-3000:]},
+                  open(path, "w"), indent=1)
+        print("VIOLATION property=%s replay=%s no-failing-input-found" % (prop, path))
+        return 1
 
 
 if __name__ == "__main__":
